@@ -37,7 +37,7 @@ def run(ctx, args):
     cases = os.path.join(ctx.scratch, "cases.json")
     with open(cases, "w") as fh:
         json.dump({"walks": [[e["o"] for e in w] for w in walks],
-                   "histories": 200 if quick else 5000}, fh)
+                   "histories": 200 if quick else 5000, "storms": 120 if quick else 1500}, fh)
     trace = os.path.join(ctx.scratch, "trace.ndjson")
     ctx.go_harness("storage", "^TestVerifCacheReplay$", env={"VERIF_CASES": cases, "VERIF_TRACE": trace},
                    timeout=1200)
@@ -56,7 +56,8 @@ def run(ctx, args):
     ctx.rule = ("every edge of the exhaustive TLC state graph of spec/Cache (2 payloads x 2 envelopes, limits 0..3, "
                 "queue length <= %s) replayed on the real cache DB of a BadgerStore by greedy edge-cover tours, seeded "
                 "random walks, and seeded concurrent histories (2-4 goroutines x 1-2 calls after a sequential prefix, "
-                "3 payloads); distinct = distinct operation sequences" % q[1:])
+                "3 payloads), and queue storms (4 goroutines queue differently signed envelopes of one payload at once, then "
+                "the queue is drained with limit 1); distinct = distinct operation sequences" % q[1:])
     ctx.samples = [[e.get("o", e["ev"]) for e in t[1]][:10] for t in traces[:2] + traces[-2:]]
     validate(ctx, d, trace, events, traces)
     ctx.assumptions += [
